@@ -34,6 +34,17 @@ const (
 	overrideUnsafe
 )
 
+// startText selects the mode for format literals and separators at the
+// start of a print call: safe text, unless the call is nested under an
+// Unsafe() wrapper.
+func (p *pp) startText() {
+	if p.override == overrideUnsafe {
+		p.buf.SetMode(b.UnsafeEscaped)
+	} else {
+		p.buf.SetMode(b.SafeEscaped)
+	}
+}
+
 func (p *pp) startUnsafe() restorer {
 	prevMode := p.buf.GetMode()
 	if p.override != overrideSafe {
